@@ -132,7 +132,7 @@ def polW : CPolicy :=
 
 theorem convW : (convert npW).pol = polW := by
   simp [convert, npW, polW, convertRules, k8sRuleToCalico, k8sSelectorToCalico, sortByKey, exprTerms, peerFields,
-    simplifyPorts, List.mergeSort_nil, List.mergeSort_singleton]
+    simplifyPorts, printedValues, List.mergeSort_nil, List.mergeSort_singleton]
 
 theorem npW_wf : npW.wf := by
   refine ⟨by decide, by decide, by decide, ?_, ?_, ?_, ?_⟩
@@ -180,7 +180,7 @@ def polK : CPolicy :=
   CPolicy.mk "default" [Term.eq labelOrchestrator "k8s", Term.has labelNamespace] [] [] [Dir.ingress]
 
 theorem convK : (convert npK).pol = polK := by
-  simp [convert, npK, polK, convertRules, k8sSelectorToCalico, sortByKey, exprTerms, List.mergeSort_nil]
+  simp [convert, npK, polK, convertRules, k8sSelectorToCalico, sortByKey, exprTerms, printedValues, List.mergeSort_nil]
 
 /-- COUNTEREXAMPLE 2 (selector key).  All pods are label-wise well formed, but the policy's
 podSelector uses the key `projectcalico.org/namespace`, which no pod carries in Kubernetes and every
